@@ -2,6 +2,7 @@ package e1
 
 import (
 	"fmt"
+	"runtime"
 	"sync"
 	"testing"
 	"testing/synctest"
@@ -201,17 +202,37 @@ func runRace(t *testing.T, rc *core.RunCtx) {
 			})
 		case 3:
 			addr := w.tree.Keys[tp.Intn(len(w.tree.Keys))].Addr
+			addr2 := w.tree.Keys[tp.Intn(len(w.tree.Keys))].Addr
 			start := chain[tp.Intn(n+1)]
+			// one rescan in two ends by itself at its start block
+			endOpt := neutrino.EndBlock(&headerfs.BlockStamp{Height: start.Height, Hash: start.Hash})
+			if tp.Chance(1, 2) {
+				endOpt = neutrino.EndBlock(nil)
+			}
 			spawn("Rescan", func() {
 				r := neutrino.NewRescan(&neutrino.RescanChainSource{ChainService: cs}, neutrino.QuitChan(rescanQuit),
 					neutrino.StartBlock(&headerfs.BlockStamp{Height: start.Height, Hash: start.Hash}),
+					endOpt,
 					neutrino.WatchAddrs(addr),
 					neutrino.NotificationHandlers(rpcclient.NotificationHandlers{
 						OnFilteredBlockConnected:    func(int32, *wire.BlockHeader, []*btcutil.Tx) {},
 						OnFilteredBlockDisconnected: func(int32, *wire.BlockHeader) {},
 					}))
 				r.Start()
+				// Another goroutine feeds the rescan updates, also after it
+				// has ended (its error channel is never read here).
+				upd := make(chan struct{})
+				go func() {
+					defer close(upd)
+					// (no WaitForShutdown here: nothing but the rescan's
+					// own locking orders these calls with its end)
+					for k := 0; k < 40; k++ {
+						runtime.Gosched()
+						r.Update(neutrino.AddAddrs(addr2))
+					}
+				}()
 				r.WaitForShutdown()
+				<-upd
 			})
 		case 4:
 			tx := wire.NewMsgTx(2)
